@@ -35,6 +35,18 @@ def race_family():
                     yield {'names': names, 'phens': gc.CONFLICT, 'cache': 1000, 'ops': ops}
 
 
+def double_restart_family():
+    """the same instance is lost twice in quick succession: its second announcement reaches the survivor while the
+    survivor's answer (RESYNC) to the first one is still being sent, i.e. with the contact times already cleared."""
+    for names in (['A', 'B'], ['A', 'B', 'C']):
+        pre = ['in A 0', 'sync', 'in A 1', 'sync']
+        for point in ('send:B', 'lock'):
+            for work in ([], ['in A 0']):
+                ops = list(pre) + ['restart B', 'pass B', 'del B A'] + work
+                ops += [f'passi A {point} restart_B;pass_B;del_B_A', 'tick 1', 'pass A', 'del A B', 'del A B', 'heal']
+                yield {'names': names, 'phens': gc.CONFLICT, 'cache': 1000, 'ops': ops}
+
+
 def crash_schedule(rng):
     sc = gc.scenario(rng, n_ops=rng.randint(10, 36))
     ops = sc['ops'][:-1]
@@ -72,6 +84,9 @@ def flags_oracle(r):
 def scenarios(ctx: Ctx, res: Result):
     for sc in race_family():
         res.count('race_family')
+        yield sc
+    for sc in double_restart_family():
+        res.count('double_restart_family')
         yield sc
     for _ in range(2500 if ctx.thorough else 280):
         res.count('random_crash_point')
